@@ -10,7 +10,7 @@ from .. import zkfake
 LEVEL = 'fault_enumeration'
 RULE = ('a real EventMgr on a temp root and the in-memory ZooKeeper holding /placement/<host>/* (identity 0-3/None, expires, '
         'chosen ctime) and /scheduled/* (manifests of 0.1-40 KB); prior cache contents generated: stale files of instances no '
-        'longer placed, missing files, files older / newer than the placement, .ready, leftover dot-prefixed temp files; '
+        'longer placed (regular files, or symbolic links to a file, to nothing or to a directory), missing files, files older / newer than the placement, .ready, leftover dot-prefixed temp files; '
         'placement or manifest nodes randomly missing. (1) convergence: after _synchronize(zk, expected, check_existing) no '
         'non-dot name outside the placement, every placed instance with both nodes has a file, every file (re)written by the '
         'call parses to manifest+placement data+task. (2) fault enumeration: sys.monitoring LINE events local to '
@@ -41,7 +41,8 @@ REQUIRED_REACH = {'*': ['sync_calls', 'files_written_checked', 'extra_removed', 
                         'service_loop_checks', 'service_loop_evicted_to_empty', 'service_loop_empty_placement_checked',
                         'legacy_yaml_replica_cases', 'views_while_a_failure_is_handled',
                         'files_written_checked_with_text:outside_bmp', 'files_written_checked_with_text:layout',
-                        'files_written_checked_with_text:yaml_lookalike', 'service_loop_files_checked_with_text:outside_bmp']}
+                        'files_written_checked_with_text:yaml_lookalike', 'service_loop_files_checked_with_text:outside_bmp',
+                        'stale_entry_was_a_link_to_directory', 'stale_entry_was_a_dangling_link', 'stale_entry_was_a_link_to_file']}
 
 TOOL = 3
 
@@ -503,6 +504,23 @@ def run(ctx):
                         delta = rng.choice([0.05, 0.3, 0.6]) if kind == 'outdated' else -rng.choice([0.05, 0.3, 0.6])
                         srv.set_ctime(z.path.placement(host, a), int(round((fct + delta) * 1000)))
                         ctx.count('subsecond_ctime_cases')
+            if rng.random() < 0.6:
+                # the stale entry of an instance that is no longer placed is not always a regular file: what an
+                # operator, a restore or another release left under the name may be a symbolic link - to a file, to
+                # nothing, or to a directory (the instance's old container directory)
+                gone = 'proid.gone#%010d' % rng.randrange(1000)
+                form = rng.choice(['link-to-file', 'dangling-link', 'link-to-directory', 'link-to-directory'])
+                prior = os.path.join(root, 'vf-prior')
+                os.makedirs(prior, exist_ok=True)
+                dest = os.path.join(prior, gone)
+                if form == 'link-to-file':
+                    with open(dest, 'w') as f:
+                        f.write('old: content\nof: %s\n' % gone)
+                elif form == 'link-to-directory':
+                    os.makedirs(os.path.join(dest, 'data'))
+                os.symlink(dest, os.path.join(cache, gone))
+                state[gone] = dict(kind='extra', big=False, form=form)
+                ctx.count('stale_entry_was_a_' + form.replace('-', '_'))
             if rng.random() < 0.5:
                 open(os.path.join(cache, '.ready'), 'w').close()
             if rng.random() < 0.4:
@@ -538,7 +556,7 @@ def run(ctx):
                 return not bad
 
             # ---------------- (1) convergence
-            before = {n: os.stat(os.path.join(cache, n)).st_ino for n in os.listdir(cache)}
+            before = {n: os.lstat(os.path.join(cache, n)).st_ino for n in os.listdir(cache)}
             check_existing = rng.random() < 0.6
             expected = list(placed)
             rng.shuffle(expected)
@@ -553,7 +571,9 @@ def run(ctx):
             case = dict(case=idx, check_existing=check_existing, state=state)
             for n in names:
                 if n not in placed:
-                    ctx.violation('cache-names-unplaced-instance', '%s is in the cache but not placed (%s)' % (n, state.get(n)), case=case)
+                    form_ = (state.get(n) or {}).get('form')
+                    ctx.violation('cache-names-unplaced-instance' + (':stale-entry-was-a-' + form_ if form_ else ''),
+                                  '%s is in the cache but not placed (%s)' % (n, state.get(n)), case=case)
             for a in apps:
                 k = state[a]['kind']
                 path = os.path.join(cache, a)
@@ -565,7 +585,7 @@ def run(ctx):
                     continue
                 if k in ('no-placement-node', 'no-manifest'):
                     continue
-                rewritten = before.get(a) != os.stat(path).st_ino
+                rewritten = before.get(a) != os.lstat(path).st_ino
                 if k == 'missing' or (k == 'outdated' and check_existing):
                     if not rewritten:
                         ctx.violation('outdated-file-not-rewritten', '%s (%s) was not rewritten' % (a, k), case=case)
